@@ -207,6 +207,8 @@ def parse_numbers(numbers, is_date=False):
             # arange does not include the end point:
             end = float(colonList[-1]) + stepSign * 0.0001
             if is_date:
+                if step < 1 or step != int(step):
+                    verif.util.error("Could not parse '%s': Dates must be stepped by a whole number of days (1 or more)." % (numbers))
                 date = min(start, end)
                 curr = list()
                 while date <= max(start, end):
